@@ -190,3 +190,14 @@ check("C16",
       "search are outside",
       "symbolic execution of the real Python code with z3 (symx), concrete replay",
       "DESIGN.md 4/C16")
+check("C18",
+      "Bounded symbolic execution of GeometricFinder.find_in_sphere/find_on_plane (FinderBase._find_by_position, "
+      "functions.is_point_on_plane/point_to_plane_distance) with a symbolic query sphere/plane on box meshes, of "
+      "RoundSolidFinder.find_core/find_shell on a Cylinder under a symbolic similarity, and of ViewpointReorienter.reorient "
+      "(Triangle, Quadrangle, _get_normals, _get_aligned) on a convex hexahedron with symbolic placement and viewpoint "
+      "distances in two initial numberings, qhull replaced by per-face diagonal choices. z3 shows exact vertex sets "
+      "(squared-distance predicates) and the five re-orientation obligations incl. independence from the numbering.",
+      "sphere centres / plane points on pinned lines, pinned plane-normal and viewpoint directions (thorough: small symbolic "
+      "direction offsets); vertices within the stated margins of a query boundary excluded; convex hexahedron fixed",
+      "symbolic execution of the real Python code with z3 (symx), ConvexHull contract stub, concrete replay with real qhull",
+      "DESIGN.md 4/C18")
